@@ -49,6 +49,15 @@ for sid in sys.argv[1:]:
                       "default is rarely changed, legacy on-disk forms the readers still accept (metadata.h5 as properties file, "
                       "files lacking newer attributes), numeric corner values of the options (0, 1, the largest accepted value), "
                       "and clean-up paths (close called twice, __del__, context managers, KeyboardInterrupt in the middle of a call).\n\n")
+    if sid[3:] >= "j":
+        WAVE_NOTE += ("THIS ROUND: think about types and magnitudes at the boundaries between layers -- numpy scalars meeting Python "
+                      "ints (np.uint64 + int -> float64, np.int64 overflow), C int / long / size_t versus uint64_t, printf formats and "
+                      "their widths (file names whose seconds have more or fewer than ten digits, the millisecond part), long double "
+                      "versus double, signed versus unsigned comparisons, sort orders (text versus numeric), values exactly at 2**31, "
+                      "2**32, 2**53, 2**63, year 2038 / 2106 / 10000 -- and about sequences in which the SAME call is made twice, or "
+                      "two calls are made in the other order than usual. Earlier rounds already used: static / class-level caches, "
+                      "path spellings (relative, trailing slash, symlinks, long, containing 'tmp.'), float-valued rates, kept "
+                      "exceptions, closed writers, leftover tmp files, several writers or readers per process.\n\n")
     txt = txt.replace("DELIVERABLES, all inside", WAVE_NOTE + "DELIVERABLES, all inside", 1) if WAVE_NOTE else txt
     if prev:
         div = ("DIVERSITY: other engineers already seeded these changes for the same property — " + "; ".join('"%s"' % s for s in prev) +
